@@ -120,10 +120,19 @@ def _seqs(job):
         # adjacent PADDING frames merge into one run of zero bytes: the parser reports one frame for them
         payload = b"".join(b for b, _ in enc)
         n += 1
+        signal.signal(signal.SIGALRM, _alarm)
+        signal.setitimer(signal.ITIMER_REAL, 5.0)
         try:
             frames = parse_frames(payload, None)
+            signal.setitimer(signal.ITIMER_REAL, 0)
+        except Hang:
+            bad.append((seq[:8], payload.hex()[:400], "parser did not terminate within 5 s on a well-formed frame sequence"))
+            if sum(1 for x in bad if "terminate" in x[2]) > 20:
+                break                   # (a looping parser would otherwise cost 5 s per sequence)
+            continue
         except Exception as e:
-            bad.append((seq, payload.hex(), f"parser raised {type(e).__name__}: {e}"))
+            signal.setitimer(signal.ITIMER_REAL, 0)
+            bad.append((seq[:8], payload.hex()[:400], f"parser raised {type(e).__name__}: {e}"))
             continue
         exp = []
         for (b, e) in enc:
@@ -178,6 +187,8 @@ def _fuzz(job):
             signal.setitimer(signal.ITIMER_REAL, 0)
         except Hang:
             bad.append((p.hex(), "parser did not terminate within 2 s"))
+            if sum(1 for x in bad if "terminate" in x[1]) > 30:
+                break                   # (enough witnesses; every further one costs 2 s)
             continue
         except Exception:
             signal.setitimer(signal.ITIMER_REAL, 0)
@@ -212,6 +223,16 @@ def run(chk):
                      workers=1, seed=chk.seed, timeout=900)
         chk.tlc("Frames sample sequences of 3", g3)
         seqs += list({json.dumps(s): s for s in g3.printed}.values())
+    # "any sequence": long sequences over the same symbols (open-ended frames only last), up to 400 frames per packet -- the grammar automaton
+    # of Frames.tla has no length bound, its exhaustive enumeration stops at MaxFrames
+    syms = list({json.dumps(x, sort_keys=True): x for sq in seqs for x in sq}.values())
+    closed = [x for x in syms if not ((x["k"] == "stream" and not x["fl"] & 2) or x["k"] == "dgram")]
+    nlong = 0
+    for _ in range(150 if quick else 3000):
+        n = rng.choice([3, 5, 17, 63, 64, 65, 66, 100, 257, 400])
+        seqs.append([rng.choice(closed) for _ in range(n - 1)] + [rng.choice(syms)])
+        nlong += 1
+    chk.extra["long_sequences"] = nlong
     rng.shuffle(seqs)
     reps = 1 if quick else 3
     chunks = [(seqs[i::32], rng.randrange(1 << 30)) for i in range(32)] * reps
@@ -219,7 +240,7 @@ def run(chk):
         chk.evaluations += n
         for seq, hexp, why in bad:
             chk.violation(f"frames {[(s['k'], s['w'], s['fl']) for s in seq]}: {why}", dict(seq=seq, payload=hexp, why=why))
-    chk.distinct |= {json.dumps(s) for s in seqs}
+    chk.distinct |= {json.dumps(s)[:2000] for s in seqs}
     chk.traces_validated += len(seqs) * reps
     chk.sample(dict(sequence=seqs[0]))
     chk.sample(dict(sequence=seqs[1]))
